@@ -1,0 +1,59 @@
+//go:build verif
+
+package gov
+
+import (
+	"github.com/rigochain/rigo-go/ctrlers/gov/proposal"
+	ctrlertypes "github.com/rigochain/rigo-go/ctrlers/types"
+	"github.com/rigochain/rigo-go/ledger"
+	abytes "github.com/rigochain/rigo-go/types/bytes"
+	"github.com/rigochain/rigo-go/types/xerrors"
+)
+
+// VerifParamsAt returns the governance parameters committed at `height` (read-only; verification harness).
+func (ctrler *GovCtrler) VerifParamsAt(height int64) (*ctrlertypes.GovParams, xerrors.XError) {
+	ctrler.mtx.RLock()
+	defer ctrler.mtx.RUnlock()
+
+	immu, xerr := ctrler.paramsLedger.ImmutableLedgerAt(height, 0)
+	if xerr != nil {
+		return nil, xerr
+	}
+	return immu.Read(ledger.ToLedgerKey(abytes.ZeroBytes(32)))
+}
+
+// VerifProposalsAt returns the open and the frozen proposals committed at `height`.
+func (ctrler *GovCtrler) VerifProposalsAt(height int64) (open, frozen []*proposal.GovProposal, xerr xerrors.XError) {
+	ctrler.mtx.RLock()
+	defer ctrler.mtx.RUnlock()
+
+	immu0, xerr := ctrler.proposalLedger.ImmutableLedgerAt(height, 0)
+	if xerr != nil {
+		return nil, nil, xerr
+	}
+	if xerr = immu0.IterateReadAllItems(func(p *proposal.GovProposal) xerrors.XError {
+		open = append(open, p)
+		return nil
+	}); xerr != nil {
+		return nil, nil, xerr
+	}
+	immu1, xerr := ctrler.frozenLedger.ImmutableLedgerAt(height, 0)
+	if xerr != nil {
+		return nil, nil, xerr
+	}
+	if xerr = immu1.IterateReadAllItems(func(p *proposal.GovProposal) xerrors.XError {
+		frozen = append(frozen, p)
+		return nil
+	}); xerr != nil {
+		return nil, nil, xerr
+	}
+	return open, frozen, nil
+}
+
+// VerifActiveParams returns a JSON rendering of the in-memory parameters currently in force.
+func (ctrler *GovCtrler) VerifActiveParams() ([]byte, error) {
+	ctrler.mtx.RLock()
+	defer ctrler.mtx.RUnlock()
+
+	return ctrler.GovParams.MarshalJSON()
+}
